@@ -58,6 +58,8 @@ def _mk_rule(r):
         if (len(r["pat"]) + (r.get("h") or 0)) % 2 == 0:
             return (r["pat"], target, None, name) if name is not None else (r["pat"], target)
         return Rule(PathMatches(r["pat"]), target, None, name)
+    if k == "pathre":      # precompiled pattern object: Pattern.match semantics, no "$" appended
+        return Rule(PathMatches(re.compile(r["pat"])), target, None, name)
     if k == "host":
         return Rule(HostMatches(r["pat"]), target, None, name)
     return Rule(AnyMatches(), target, None, name)
@@ -154,7 +156,7 @@ def _gname(n):
 
 
 def _grule(r):
-    k = {"path": "KPath", "host": "KHost", "any": "KAny"}[r["k"]]
+    k = {"path": "KPath", "host": "KHost", "any": "KAny", "pathre": "KPathRe"}[r["k"]]
     if "sub" in r:
         return "(RRNode %s %s %s %s)" % (k, _gstr(r["pat"]), _gname(r.get("name")), G.glist([_grule(x) for x in r["sub"]], "rrule"))
     return "(RRLeaf %s %s %s %s)" % (k, _gstr(r["pat"]), _gname(r.get("name")), G.gn(r["h"]))
@@ -199,17 +201,22 @@ def _strict(r, case, host_name, path, xreal):
         return re.fullmatch(r["pat"], host_name) is not None
     if k == "defhost":
         return (not xreal) and re.fullmatch(r["pat"], case["default_host"]) is not None
+    if k == "pathre":
+        return re.match(r["pat"], path) is not None
     return re.fullmatch(r["pat"], path) is not None
 
 
 def _oracle_route(case, host, uri, xreal):
     host_name = host.lower()
+    mport = re.match(r"^(.+):(\d+)$", host_name)
+    if mport:
+        host_name = mport.group(1)
     path = uri.partition("?")[0]
     for anc, leaf in _leaves(_app_tree(case), []):
         if all(_strict(r, case, host_name, path, xreal) for r in anc + [leaf]):
             args = []
-            if leaf["k"] == "path":
-                m = re.fullmatch(leaf["pat"], path)
+            if leaf["k"] in ("path", "pathre"):
+                m = re.fullmatch(leaf["pat"], path) if leaf["k"] == "path" else re.match(leaf["pat"], path)
                 args = [urllib.parse.unquote_to_bytes(g) for g in m.groups()]
             return [Tag("Handler"), leaf["h"], args]
     return Tag("Default") if case.get("dflt") else Tag("NotFound")
@@ -301,7 +308,8 @@ LITS = ["a", "b", "ab", "api", "v1", "x\\.y", "100%", "a-b", "~u", "q\\?", "user
 HOSTPATS = [".*", "www\\.example\\.com", "example\\.com", "[a-z]+\\.example\\.com", ".*\\.example\\.com", "localhost", "EXAMPLE\\.com",
             "example\\.com$", "^www\\..*$", "[a-z0-9.-]+", "example.com", "ex\\$", "(www)\\.example\\.com", ".+\\.org"]
 HOSTS = ["example.com", "www.example.com", "WWW.Example.COM", "a.example.com", "localhost", "other.org", "example.com.", "exampleXcom",
-         "ex$", "ex$tra", "a.b.org", "x"]
+         "ex$", "ex$tra", "a.b.org", "x", "example.com:8080", "WWW.Example.COM:80", "example.com:", "[::1]:8080", "localhost:0",
+         "www.example.com:443", "[::1]"]
 NAMES = ["n0", "n1", "n2", "home", "n3"]
 
 
@@ -371,7 +379,7 @@ def gen_pattern(rng):
             parts.append("(" + b + ")")
             segs.append(("grp", kind))
         else:   # a quantified top-level item
-            t, kind = rng.choice([("[0-9]", "dig"), (".", "dot"), ("a*", "as"), ("[a-z]{2}", "two_l"), ("b+?", "bs")])
+            t, kind = rng.choice([("[0-9]", "dig"), (".", "dot"), ("a*", "as"), ("[a-z]{2}", "two_l"), ("b+?", "bs"), ("a{1}", "one_a")])
             parts.append(t)
             segs.append(("top", kind))
     r = rng.random()
@@ -399,7 +407,7 @@ def gen_pattern(rng):
 def _sample_top(kind, rng):
     return {"dig": lambda: rng.choice("0123456789"), "dot": lambda: rng.choice("a/%x"), "as": lambda: "a" * rng.randrange(0, 3),
             "two_l": lambda: rng.choice(["ab", "zz"]), "bs": lambda: "b" * rng.randrange(1, 3),
-            "optslash": lambda: rng.choice(["", "/"])}[kind]()
+            "optslash": lambda: rng.choice(["", "/"]), "one_a": lambda: "a"}[kind]()
 
 
 def path_for(segs, rng):
@@ -456,6 +464,10 @@ def gen_rules(rng, ids, depth, npat, pats):
         if r < 0.78 or depth >= 2:
             pat, segs = rng.choice(pats)[:2] if (pats and rng.random() < 0.12) else gen_pattern(rng)
             rule = {"k": "path", "pat": pat, "name": name, "h": ids.next(rng)}
+            if rng.random() < 0.08:    # the other PathMatches code path: a precompiled pattern
+                rule["k"] = "pathre"
+                if rng.random() < 0.5 and not pat.endswith("$"):
+                    rule["pat"] = pat = pat + "$"
             pats.append((pat, segs, name, True))
             out.append(rule)
         elif r < 0.88:
@@ -584,8 +596,15 @@ def corpus_cases():
     out.append(_case(c5, {"k": "reverse", "name": "d", "args": [], "host": "x"}))
     out.append(_case(c5, {"k": "reverse", "name": "m", "args": ["x$y"], "host": "x"}))
     out.append(_case(c5, {"k": "reverse", "name": "e", "args": ["xx"], "host": "x"}))
+    # precompiled patterns keep Pattern.match semantics (prefix match; `$` also before a final LF)
+    c7 = dict(base, handlers=[{"k": "pathre", "pat": "/p/([0-9]+)", "name": "pre", "h": 1}, {"k": "pathre", "pat": "/q/([a-z]*?)$", "name": "q", "h": 2},
+                              _leaf("/p/([0-9]+)x", 3), {"k": "pathre", "pat": "^/r\\$", "name": "r", "h": 4}])
+    for uri in ["/p/12", "/p/12x", "/p/12/zz", "/p/", "/q/ab", "/q/ab\n", "/q/ab\n\n", "/q/abX", "/r$", "/r$$"]:
+        out.append(_case(c7, {"k": "route", "host": "x:80", "uri": uri, "xreal": False}))
+    for nm, a in [("pre", ["7"]), ("q", ["ab"]), ("r", [])]:
+        out.append(_case(c7, {"k": "reverse", "name": nm, "args": a, "host": "x"}))
     c6 = {"handlers": [_leaf("/h", 1)], "hosts": [["ex\\$", [_leaf("/h", 2)]], ["example\\.com", [_leaf("/h", 3)]]], "default_host": None, "dflt": False}
-    for host in ["ex$", "ex$tra", "example.com", "example.com.evil"]:
+    for host in ["ex$", "ex$tra", "example.com", "example.com.evil", "example.com:8080", "EXAMPLE.com:1", "example.com:", "ex$:5"]:
         out.append(_case(c6, {"k": "route", "host": host, "uri": "/h", "xreal": False}))
     return out
 
@@ -595,6 +614,7 @@ SMALL_TABLES = [
     [_leaf("/a/?", 1), _leaf("/(a+?)(a*)", 2), _leaf("(/[%1]{2,3})", 3)],
     [_leaf("/%(1?)", 1), _leaf("/(.*?)/(.*)", 2), _leaf("(.?)(.?)(.?)", 3)],
     [{"k": "path", "pat": "/a.*", "name": None, "sub": [_leaf("/a/([^/]*)", 1), _leaf("/a(.*)a", 2)]}, _leaf("/([a1]{2})", 3), _leaf("", 4)],
+    [{"k": "pathre", "pat": "/a", "name": None, "h": 1}, {"k": "pathre", "pat": "/(1*?)$", "name": None, "h": 2}, _leaf("/(%*)", 3)],
 ]
 
 
@@ -721,20 +741,21 @@ TRUSTED_BASE = [
     "quantifiers * + ? {m} {m,n} and their lazy forms on one-character atoms, unnested unnamed groups, ^ at the start, $ at the end): "
     "the Gallina backtracking matcher is tied to it only by the correspondence check",
     "urllib.parse.quote / unquote_to_bytes as modelled in Lib/C21_Pct.v; str.encode('utf-8') as in Lib/C21_Utf8.v",
-    "HTTPServerRequest derives host_name = Host.lower() (Host values without port) and path = uri.partition('?')[0]",
+    "HTTPServerRequest derives host_name = split_host_and_port(Host.lower())[0] (modelled for ASCII hosts, ports shorter than int()'s digit limit) and path = uri.partition('?')[0]",
     "Python % formatting restricted to %% and %s on str arguments",
 ]
 ASSUMPTIONS = [
     "patterns are inside the modelled fragment (rx_parse succeeds); named groups, alternation, nested or quantified groups, \\w, look-arounds are not modelled",
     "handler targets are RequestHandler subclasses or nested rule lists",
     "request paths contain no lone surrogates (otherwise UnicodeEncodeError escapes, modelled as RtError)",
-    "reverse_url arguments are byte strings (str / int arguments are converted to the same bytes by utf8()/str())",
+    "reverse_url arguments are byte strings (str / int arguments are converted to the same bytes by utf8()/str(); the harness passes all three kinds)",
+    "Host header values are ASCII; a port, if any, is shorter than int()'s 4300-digit limit",
 ]
 RULE = ("random Application configurations (1-5 top rules, nested routers behind path/host/any matchers, 0-2 add_handlers host groups, "
         "optional default_host/default handler, duplicate names) x 8 operations each: paths sampled from a rule's own pattern language then mutated "
         "(trailing LF, extra/missing characters, percent escapes valid and invalid, non-ASCII, query), or reverse_url with arguments sampled from the "
         "group languages, wrong counts and unrepresentable arguments, followed by routing the returned URL; plus every path over the alphabet "
-        "{/,a,1,%,LF} up to length 3 (quick) / 5 (thorough) on 4 small ambiguous rule tables; distinct by (rules, op); non-trivial = a handler or URL result")
+        "{/,a,1,%,LF} up to length 3 (quick) / 5 (thorough) on 5 small ambiguous rule tables (one with precompiled patterns); distinct by (rules, op); non-trivial = a handler or URL result")
 EXHAUSTIVE = {"quick": False, "thorough": False}
 LEVEL_TEXT = ("Machine-checked (Coq) proofs over an executable model of RuleRouter.find_handler, HostMatches / DefaultHostMatches / PathMatches "
               "(match, reverse, _find_groups), ReversibleRuleRouter.reverse_url and the Application routers, with a Gallina priority-ordered backtracking "
@@ -742,9 +763,9 @@ LEVEL_TEXT = ("Machine-checked (Coq) proofs over an executable model of RuleRout
               "first leaf (depth first through nested routers and host groups) whose matchers all match the whole host/path, with percent-decoded groups, "
               "else default/404 (both directions); reverse followed by match returns the arguments for representable arguments and unambiguous parses "
               "(semantic and syntactic criterion), proved from the pattern TEXT for plainly written patterns including literal % and a final escaped $; "
-              "reverse_url routes back inside the stated scope. The model is tied to the code by differential correspondence on generated "
+              "reverse_url routes back inside the stated scope for every compiled configuration; check_case accepts the model on every case; the Host port is "
+              "irrelevant to routing; precompiled patterns keep Pattern.match semantics. The model is tied to the code by differential correspondence on generated "
               "Application configurations.")
 LEVEL_NOTE = ("Trusted: Coq kernel/vm_compute; Python's re engine on the modelled fragment (tied by correspondence only); the percent-coding and UTF-8 "
-              "models of Lib/C21_*; Python % formatting on %%/%s; correspondence harness. The checker theorem for reverse cases is conditional on "
-              "faithfulness of the configuration's path patterns (proved for plainly written patterns).")
+              "models of Lib/C21_*; Python % formatting on %%/%s; correspondence harness.")
 TECHNIQUE = "Coq proof (CPS backtracking matcher sound/complete w.r.t. a declarative semantics, unique-parse argument, induction over nested rule trees, lexer/builder/_find_groups simulation on pattern text) + differential correspondence via vm_compute"
